@@ -286,6 +286,8 @@ class RvGen(_Base):
             self.pmov(scope)
         elif k == "loop" and depth < c["max_depth"]:
             self.loop(scope, depth)
+        elif k == "nest" and depth == 0:
+            self.chain_nest(scope, depth, r.choice([2, 2, 3]))
         elif k == "frep" and depth < c["max_depth"] and c["floats"]:
             self.frep(scope, depth)
         elif k == "while" and depth == 0:
@@ -515,6 +517,85 @@ class RvGen(_Base):
         if depth >= 1:
             self.features.add("nested-for")
 
+    # ---- directed loop nests: one register carries a value through 2-3 nested loops
+    def chain_nest(self, scope, depth, levels):
+        """Outer loop whose carried value %acc is turned into the inner loop's initial value by an op of the outer
+        body (%start = op(%acc, %other): %acc dies there), the inner loop's result is yielded by the outer loop: all of
+        them are tied into one register, which is therefore reserved once per nesting level.  Other values are
+        defined above %start and between %start and the inner loop (they are allocated after the inner body, while
+        the outer accumulator is still live)."""
+        kind = "f" if (self.cfg["floats"] and self.rng.random() < 0.25) else "i"
+        init = self.carried_init(scope, kind)
+        self._chain_loop(scope, depth, levels, init, kind)
+        self.features.add(f"chained-nest-{levels}")
+
+    def _chain_op(self, scope, acc, kind, prefix):
+        r = self.rng
+        nm = self.fresh(prefix)
+        q = r.random()
+        if q < 0.15:
+            op = "riscv.mv" if kind == "i" else "riscv.fmv.d"
+            self.emit(f"{nm} = {op} {acc.name} : ({self.vty(acc)}) -> {self.ty(kind)}")
+        else:
+            other = self.need(scope, kind)
+            op = r.choice(["add", "xor", "sub", "mul", "or"]) if kind == "i" else r.choice(["fadd.d", "fmul.s", "fsub.s"])
+            a, b = (acc, other) if r.random() < 0.6 else (other, acc)
+            self.emit(f"{nm} = riscv.{op} {a.name}, {b.name} : ({self.vty(a)}, {self.vty(b)}) -> {self.ty(kind)}")
+        acc.consumed = True
+        return Val(nm, kind, None, scope)
+
+    def _chain_loop(self, scope, depth, levels, init, kind):
+        r = self.rng
+        lbv, stepv = r.choice([0, 0, 1]), r.choice([1, 1, 2])
+        trip = r.choice([1, 2, 3] if depth == 0 else [1, 2])
+        lb = self.const(scope, "i", lbv)
+        ub = self.const(scope, "i", lbv + trip * stepv)
+        if r.random() < 0.4:
+            st = self.const(scope, "i", stepv)
+            step_txt = st.name
+        else:
+            step_txt = f"{stepv} : si12"
+        init.consumed = True
+        if init in scope.vals:
+            scope.vals.remove(init)
+        body = Scope(scope)
+        iv = Val(self.fresh("iv"), "i", None, body, is_arg=2)
+        acc = Val(self.fresh("acc"), kind, init.reg, body, is_arg=True)  # hidden from the random statements
+        body.vals.append(iv)
+        res = Val(self.fresh("nr"), kind, init.reg, scope)
+        self.emit(f"{res.name} = riscv_scf.for {iv.name} : !riscv.reg = {lb.name} to {ub.name} step {step_txt} "
+                  f"iter_args({acc.name} = {init.name}) -> ({self.vty(init)}) {{")
+        self.indent += 1
+        self.body(body, depth + 1, r.randint(0, 3))
+        if levels > 1:
+            start = self._chain_op(body, acc, kind, "start")
+            if acc.reg is not None:  # keep the pre-assigned register of the tuple
+                nm = self.fresh("start")
+                op = "riscv.mv" if kind == "i" else "riscv.fmv.d"
+                self.emit(f"{nm} = {op} {start.name} : ({self.vty(start)}) -> {self.ty(kind, acc.reg)}")
+                start = Val(nm, kind, acc.reg, body)
+            self.body(body, depth + 1, r.randint(0, 2))
+            y = self._chain_loop(body, depth + 1, levels - 1, start, kind)
+            body.vals.remove(y)
+            self.body(body, depth + 1, r.randint(0, 2))
+        else:
+            self.body(body, depth + 1, r.randint(0, 2))
+            y = self._chain_op(body, acc, kind, "next")
+            if acc.reg is not None:
+                nm = self.fresh("next")
+                op = "riscv.mv" if kind == "i" else "riscv.fmv.d"
+                self.emit(f"{nm} = {op} {y.name} : ({self.vty(y)}) -> {self.ty(kind, acc.reg)}")
+                y = Val(nm, kind, acc.reg, body)
+        self.emit(f"riscv_scf.yield {y.name} : {self.vty(y)}")
+        self.indent -= 1
+        self.emit("}")
+        self.release_scope(body)
+        scope.vals.append(res)
+        self.features.add("for")
+        if depth >= 1:
+            self.features.add("nested-for")
+        return res
+
     def frep(self, scope, depth):
         r = self.rng
         n = self.const(scope, "i", r.choice([0, 1, 2, 3]))
@@ -684,7 +765,7 @@ class RvGen(_Base):
 
 RV_WEIGHTS = {"const": 8, "mvzero": 2, "getzero": 1, "un": 6, "bin": 22, "imm": 8, "fbin": 8, "fun": 2, "fter": 3,
               "fcmp": 2, "f2i": 3, "i2f": 4, "snitchbin": 2, "store": 3, "load": 2, "observe": 4, "inout": 5,
-              "vfmac": 3, "pmov": 2, "loop": 5, "frep": 1.5, "while": 0.3, "stream": 2}
+              "vfmac": 3, "pmov": 2, "loop": 5, "nest": 1.5, "frep": 1.5, "while": 0.3, "stream": 2}
 
 
 def rv_config(rng):
@@ -695,10 +776,11 @@ def rv_config(rng):
             w[k] = 0
     style = rng.random()
     if style < 0.25:  # straight-line arithmetic only (the probe's shape)
-        for k in ("loop", "frep", "while", "inout", "vfmac", "pmov", "stream"):
+        for k in ("loop", "nest", "frep", "while", "inout", "vfmac", "pmov", "stream"):
             w[k] = 0
     elif style < 0.45:  # loop heavy
         w["loop"] *= 3
+        w["nest"] *= 3
         w["frep"] *= 2
     elif style < 0.6:  # in/out heavy
         w["inout"] *= 4
@@ -913,6 +995,8 @@ class X86Gen(_Base):
             self.features.add("parallel-mov")
         elif k == "loop" and depth < c["max_depth"]:
             self.loop(scope, depth)
+        elif k == "nest" and depth == 0:
+            self.chain_nest(scope, depth, r.choice([2, 2, 3]))
         else:
             self.const(scope, self.skind())
         self.trim(scope)
@@ -1026,6 +1110,73 @@ class X86Gen(_Base):
         if depth >= 1:
             self.features.add("nested-for")
 
+    def chain_nest(self, scope, depth, levels):
+        """x86 version of RvGen.chain_nest (one register carried through 2-3 nested x86_scf.for loops)."""
+        kind = self.rng.choice([q for q in self.cfg["widths"] if q in (64, 32)] or [64])
+        init = self.tied_source(scope, kind)
+        self._chain_loop(scope, depth, levels, init, kind)
+        self.features.add(f"chained-nest-{levels}")
+
+    def _chain_op(self, scope, acc, kind, prefix):
+        r = self.rng
+        nm = self.fresh(prefix)
+        if r.random() < 0.3:
+            self.emit(f"{nm} = x86.ds.mov {acc.name} : ({self.vty(acc)}) -> {self.ty(kind, acc.reg)}")
+        else:
+            other = self.need(scope, kind)
+            op = r.choice(["add", "sub", "xor", "or", "imul"])
+            self.emit(f"{nm} = x86.rs.{op} {acc.name}, {other.name} : ({self.vty(acc)}, {self.vty(other)}) -> {self.vty(acc)}")
+        acc.consumed = True
+        return Val(nm, kind, acc.reg, scope)
+
+    def _chain_loop(self, scope, depth, levels, init, kind):
+        r = self.rng
+        ivk = r.choice([q for q in self.cfg["widths"] if q in (64, 32)] or [64])
+        lbv, stepv = r.choice([0, 0, 1]), r.choice([1, 1, 2])
+        trip = r.choice([1, 2, 3] if depth == 0 else [1, 2])
+        lb = self.const(scope, ivk, lbv)
+        scope.vals.remove(lb)
+        if r.random() < 0.5:
+            ub_txt = self.const(scope, ivk, lbv + trip * stepv).name
+        else:
+            ub_txt = f"{lbv + trip * stepv} : si32"
+        st_txt = self.const(scope, ivk, stepv).name if r.random() < 0.4 else f"{stepv} : si32"
+        init.consumed = True
+        if init in scope.vals:
+            scope.vals.remove(init)
+        body = Scope(scope)
+        iv = Val(self.fresh("iv"), ivk, None, body, is_arg=2)
+        acc = Val(self.fresh("acc"), kind, init.reg, body, is_arg=True)
+        body.vals.append(iv)
+        lb_end = Val(self.fresh("le"), ivk, None, scope)
+        res = Val(self.fresh("nr"), kind, init.reg, scope)
+        self.emit(f"{lb_end.name}, {res.name} = x86_scf.for {iv.name} : {self.vty(iv)} = {lb.name} to {ub_txt} step {st_txt} "
+                  f"iter_args({acc.name} = {init.name}) -> ({self.vty(init)}) {{")
+        self.indent += 1
+        for _ in range(r.randint(0, 3)):
+            self.stmt(body, depth + 1)
+        if levels > 1:
+            start = self._chain_op(body, acc, kind, "start")
+            for _ in range(r.randint(0, 2)):
+                self.stmt(body, depth + 1)
+            y = self._chain_loop(body, depth + 1, levels - 1, start, kind)
+            body.vals.remove(y)
+            for _ in range(r.randint(0, 2)):
+                self.stmt(body, depth + 1)
+        else:
+            for _ in range(r.randint(0, 2)):
+                self.stmt(body, depth + 1)
+            y = self._chain_op(body, acc, kind, "next")
+        self.emit(f"x86_scf.yield {y.name} : {self.vty(y)}")
+        self.indent -= 1
+        self.emit("}")
+        self.release_scope(body)
+        scope.vals.extend([lb_end, res])
+        self.features.add("for")
+        if depth >= 1:
+            self.features.add("nested-for")
+        return res
+
     def function(self):
         r = self.rng
         c = self.cfg
@@ -1062,17 +1213,18 @@ class X86Gen(_Base):
 
 
 X86_WEIGHTS = {"const": 6, "mov": 8, "rs": 20, "r": 6, "ri": 8, "dsi": 4, "simul": 2, "vec": 6, "fma": 4, "observe": 4,
-               "inout": 4, "pmov": 2, "loop": 5}
+               "inout": 4, "pmov": 2, "loop": 5, "nest": 1.2}
 
 
 def x86_config(rng):
     w = dict(X86_WEIGHTS)
     style = rng.random()
     if style < 0.25:
-        for k in ("loop", "inout", "pmov", "simul"):
+        for k in ("loop", "nest", "inout", "pmov", "simul"):
             w[k] = 0
     elif style < 0.45:
         w["loop"] *= 3
+        w["nest"] *= 3
     widths = rng.choice([[64], [64], [64, 32], [64, 32], [32], [64, 32, 16, 8]])
     vecs = rng.choice([[], [], ["y"], ["z"], ["y", "z"]])
     if not vecs:
